@@ -604,29 +604,34 @@ Proof.
 Qed.
 
 (* ================================================================== a block *)
-Lemma index_txs_total height time minimum txs : forall txi u,
+Lemma index_txs_total height time minimum later txs : forall txi u,
   TxInv height txi u -> Forall (tx_ok height) txs -> height <= U64_MAX ->
   txi + N.of_nat (length txs) <= TWO32 ->
   s_reserved (u_st u) + N.of_nat (length txs) <= U64_MAX ->
   s_runes (u_st u) + N.of_nat (length txs) <= U64_MAX ->
-  NoDup (map tx_id txs) -> fresh_txids (map tx_id txs) (s_balances (u_st u)) ->
-  exists u' txi', index_txs height time minimum txi u txs = Ok u' /\ TxInv height txi' u'.
+  NoDup (map tx_id txs ++ later) -> fresh_txids (map tx_id txs ++ later) (s_balances (u_st u)) ->
+  exists u' txi', index_txs height time minimum txi u txs = Ok u' /\ TxInv height txi' u' /\
+    fresh_txids later (s_balances (u_st u')) /\
+    s_reserved (u_st u') <= s_reserved (u_st u) + N.of_nat (length txs) /\
+    s_runes (u_st u') <= s_runes (u_st u) + N.of_nat (length txs).
 Proof.
   induction txs as [|tx txs IH]; intros txi u I Hok Hh Ht Hres Hrun Hnd Hfr; cbn [index_txs].
-  - exists u, txi. split; [reflexivity|exact I].
-  - cbn [length map] in *. inversion Hok as [|? ? Hok1 Hok2]; subst. inversion Hnd as [|? ? Hn1 Hn2]; subst.
+  - exists u, txi. split; [reflexivity|]. split; [exact I|]. split; [exact Hfr|]. cbn [length]. lia.
+  - cbn [length map app] in *. inversion Hok as [|? ? Hok1 Hok2]; subst. inversion Hnd as [|? ? Hn1 Hn2]; subst.
     destruct (index_runes_total height time minimum txi u tx I Hok1 Hh ltac:(lia) ltac:(lia) ltac:(lia))
       as [u1 [H1 [I1 [R1 R2]]]].
     { intros o. apply Hfr. left. reflexivity. }
-    rewrite H1. cbn [bind]. apply (IH (txi + 1) u1 I1 Hok2 Hh); try lia; [exact Hn2|].
-    intros t o Hin.
-    destruct (alookup op_eqb (t, o) (s_balances (u_st u1))) eqn:X; [|reflexivity]. exfalso.
-    assert (Hfresh : ~ has_entry (height, txi) (s_entries (u_st u))).
-    { intros H. apply (ti_ids _ _ _ I) in H. cbn in H. lia. }
-    pose proof (index_runes_conserves _ _ _ _ _ _ _ (0, 0) H1 Hfresh ltac:(intros o'; apply Hfr; left; reflexivity)) as [_ [_ [_ [_ K]]]].
-    destruct (K (t, o)) as [K1|K1]; [rewrite X; discriminate| |].
-    + apply K1. apply Hfr. right. exact Hin.
-    + cbn in K1. subst t. contradiction.
+    rewrite H1. cbn [bind].
+    destruct (IH (txi + 1) u1 I1 Hok2 Hh) as [u2 [txi2 [H2 [I2 [F2 [R3 R4]]]]]]; try lia; [exact Hn2| |].
+    + intros t o Hin.
+      destruct (alookup op_eqb (t, o) (s_balances (u_st u1))) eqn:X; [|reflexivity]. exfalso.
+      assert (Hfresh : ~ has_entry (height, txi) (s_entries (u_st u))).
+      { intros H. apply (ti_ids _ _ _ I) in H. cbn in H. lia. }
+      pose proof (index_runes_conserves _ _ _ _ _ _ _ (0, 0) H1 Hfresh ltac:(intros o'; apply Hfr; left; reflexivity)) as [_ [_ [_ [_ K]]]].
+      destruct (K (t, o)) as [K1|K1]; [rewrite X; discriminate| |].
+      * apply K1. apply Hfr. right. exact Hin.
+      * cbn in K1. subst t. contradiction.
+    + exists u2, txi2. split; [exact H2|]. split; [exact I2|]. split; [exact F2|]. lia.
 Qed.
 
 (* what must hold of the index state before a block *)
@@ -652,12 +657,20 @@ Record BlockOk (height : N) (st : state) (b : block) : Prop := mkBlockOk {
   bo_runes : s_runes st + N.of_nat (length (b_txs b)) <= U64_MAX;
   bo_reserved : s_reserved st + N.of_nat (length (b_txs b)) <= U64_MAX }.
 
-Theorem runes_index_total first height st b :
+(* general form: [later] = transaction ids of the blocks still to come *)
+Lemma runes_index_total_gen first height st b later :
   StateOk height st -> BlockOk height st b ->
-  exists st', index_block first height st b = Ok st' /\ StateOk (height + 1) st'.
+  NoDup (map tx_id (b_txs b) ++ later) -> fresh_txids (map tx_id (b_txs b) ++ later) (s_balances st) ->
+  exists st', index_block first height st b = Ok st' /\ StateOk (height + 1) st' /\
+    fresh_txids later (s_balances st') /\
+    s_reserved st' <= s_reserved st + N.of_nat (length (b_txs b)) /\
+    s_runes st' <= s_runes st + N.of_nat (length (b_txs b)).
 Proof.
-  intros [Sc Se St Si] [Bt Bh Bc Bn Bf Br Bs]. unfold index_block. destruct (height <? first).
-  - exists st. split; [reflexivity|]. constructor; try assumption. intros r Hr. apply Si in Hr. lia.
+  intros [Sc Se St Si] [Bt Bh Bc Bn Bf Br Bs] Hnd Hfr. unfold index_block. destruct (height <? first).
+  - exists st. split; [reflexivity|]. split; [|split].
+    + constructor; try assumption. intros r Hr. apply Si in Hr. lia.
+    + intros t o Hin. apply Hfr. apply in_or_app. right. exact Hin.
+    + lia.
   - assert (I0 : TxInv height 0 (mkUpd st [])).
     { constructor; cbn [u_st u_burned].
       - intros r. cbn [u_st u_burned msum]. specialize (Sc r). lia.
@@ -665,12 +678,12 @@ Proof.
       - exact St.
       - apply kn_nil.
       - intros r Hr. left. apply Si. exact Hr. }
-    destruct (index_txs_total height (b_time b) (minimum_at_height first height) (b_txs b) 0 (mkUpd st []) I0 Bt Bh)
-      as [u1 [txi' [Htx [Ic Ie It Iu Ii]]]]; cbn [u_st]; try assumption; try lia.
-    rewrite Htx. cbn [bind].
+    destruct (index_txs_total height (b_time b) (minimum_at_height first height) later (b_txs b) 0 (mkUpd st []) I0 Bt Bh)
+      as [u1 [txi' [Htx [[Ic Ie It Iu Ii] [F1 [R1 R2]]]]]]; cbn [u_st]; try assumption; try lia.
+    rewrite Htx. cbn [bind]. cbn [u_st] in R1, R2.
     destruct (update_burned_progress (u_burned u1) (s_entries (u_st u1)) Iu) as [es1 Hup].
     { intros r. pose proof (Ic r). pose proof (supply_le _ r Ie). alia. }
-    rewrite Hup. cbn [bind]. eexists. split; [reflexivity|].
+    rewrite Hup. cbn [bind]. eexists. split; [reflexivity|]. split; [|split; [exact F1|cbn; lia]].
     constructor; cbn [set_entries s_entries s_balances].
     + intros r. cbn [set_entries s_entries s_balances]. pose proof (update_burned_spec _ _ _ r Hup) as [U1 [U2 _]].
       pose proof (Ic r). alia.
@@ -679,6 +692,47 @@ Proof.
     + eapply tkn_weaken; [|exact It]. intros r Hr. cbn beta in *.
       pose proof (update_burned_spec _ _ _ r Hup) as [_ [_ U3]]. apply U3. exact Hr.
     + intros r Hr. pose proof (update_burned_spec _ _ _ r Hup) as [_ [_ U3]]. apply U3 in Hr. apply Ii in Hr. lia.
+Qed.
+
+(* one block: index_block of the model never panics *)
+Theorem runes_index_total first height st b :
+  StateOk height st -> BlockOk height st b ->
+  exists st', index_block first height st b = Ok st' /\ StateOk (height + 1) st'.
+Proof.
+  intros S B. destruct (runes_index_total_gen first height st b [] S B) as [st' [H1 [H2 _]]].
+  - rewrite app_nil_r. exact (bo_nodup _ _ _ B).
+  - rewrite app_nil_r. exact (bo_fresh _ _ _ B).
+  - exists st'. auto.
+Qed.
+
+(* a chain: blocks at consecutive heights *)
+Fixpoint chain_ok (height : N) (bs : list block) : Prop :=
+  match bs with
+  | [] => True
+  | b :: r =>
+    Forall (tx_ok height) (b_txs b) /\ height <= U64_MAX /\ N.of_nat (length (b_txs b)) <= TWO32 /\
+    chain_ok (height + 1) r
+  end.
+
+Theorem runes_index_chain_total first bs : forall height st,
+  StateOk height st -> chain_ok height bs ->
+  NoDup (txids bs) -> fresh_txids (txids bs) (s_balances st) ->
+  s_runes st + N.of_nat (length (txids bs)) <= U64_MAX ->
+  s_reserved st + N.of_nat (length (txids bs)) <= U64_MAX ->
+  exists sts, index_chain first height st bs = Ok sts.
+Proof.
+  induction bs as [|b bs IH]; intros height st S C Hnd Hfr Hr1 Hr2; cbn [index_chain]; [eexists; reflexivity|].
+  cbn [chain_ok] in C. destruct C as [C1 [C2 [C3 C4]]]. cbn [txids flat_map] in Hnd, Hfr, Hr1, Hr2.
+  fold (txids bs) in *. rewrite app_length, map_length in Hr1, Hr2.
+  assert (B : BlockOk height st b).
+  { constructor; try assumption; try lia.
+    - clear -Hnd. induction (map tx_id (b_txs b)) as [|x l IHl]; [constructor|]. cbn in Hnd. inversion Hnd; subst.
+      constructor; [intros H; apply H1; apply in_or_app; left; exact H|apply IHl; assumption].
+    - intros t o Hin. apply Hfr. apply in_or_app. left. exact Hin. }
+  destruct (runes_index_total_gen first height st b (txids bs) S B Hnd Hfr) as [st1 [H1 [S1 [F1 [R1 R2]]]]].
+  rewrite H1. cbn [bind].
+  destruct (IH (height + 1) st1 S1 C4) as [sts Hs]; [eapply NoDup_app_r; exact Hnd|exact F1|lia|lia|].
+  rewrite Hs. cbn [bind]. eexists; reflexivity.
 Qed.
 
 (* the empty index satisfies StateOk *)
@@ -709,4 +763,14 @@ Proof.
     + constructor; [intros []|constructor].
     + intros t v _. reflexivity.
   - vm_compute. eexists. split; reflexivity.
+Qed.
+
+(* from the empty index (regtest / signet / testnet; mainnet starts with one hard-coded entry) *)
+Corollary runes_index_chain_total_from_empty first height bs :
+  chain_ok height bs -> NoDup (txids bs) -> N.of_nat (length (txids bs)) <= U64_MAX ->
+  exists sts, index_chain first height empty_state bs = Ok sts.
+Proof.
+  intros C Hnd Hl. apply runes_index_chain_total; try assumption.
+  - apply state_ok_empty.
+  - intros t o _. reflexivity.
 Qed.
